@@ -35,6 +35,7 @@ func c18(c *Ctx) {
 	r.Rule("R18.1", "the FileMode driving the dispatch is Mode() of the FileInfo returned by os.Lstat on the root parameter; os.Stat is not called anywhere in the importer")
 	r.Rule("R18.2", "the dispatch tests IsDir(), Type()==ModeSymlink and IsRegular(); the path where all are false returns (nil link, non-nil error); symlink arm: os.Readlink(root) → symlink builder, no os.Open/ReadFile; regular arm: os.Open(root) → file builder")
 	r.Rule("R18.3", "directory arm: range over os.ReadDir(root)'s entries; every cycle of the loop passes the recursive import of path.Join(root, e.Name()), the link constructor named e.Name() with that result's link and size, and the append to the list that is built")
+	r.Rule("R18.5", "the importer and the builders it calls keep no state between imports: no package-level variable of the builder packages is written outside package initialisation (every import writes all of its blocks to the store it was given)")
 	r.Rule("R18.4", "the list built from all entries is handed to a directory builder that branches on an estimated size between the plain and the sharded form")
 
 	var imp *ssa.Function
@@ -228,6 +229,7 @@ func c18(c *Ctx) {
 		r.Check(okOpen, "R18.2", name+"/regular-arm", c.P.Pos(firstPos(b)), "opens root and hands the file to the file builder", "the regular-file arm does not hand os.Open(root) to a storing file builder")
 	}
 
+	c.checkNoBuilderGlobals("R18.5")
 	// ---- R18.3
 	if b := arms["dir"]; b != nil {
 		c.checkImportLoop(imp, b, root, L)
